@@ -237,8 +237,10 @@ class Mini:
 
     generic_lits = None
 
-    def call_fn(self, path, args, crate=None):
+    def call_fn(self, path, args, crate=None, gargs=None):
         crate = crate or self.crate
+        if not hasattr(self, "gstack"):
+            self.gstack = []
         if self.generic_lits is None:
             self.generic_lits = set()
         for suffix, f in getattr(self, "overrides", {}).items():
@@ -258,6 +260,7 @@ class Mini:
         self.depth += 1
         old = self.crate
         self.crate = c2
+        self.gstack.append([int(x) for x in (gargs or []) if isinstance(x, str) and x.isdigit()])
         try:
             return self.ev(H.unwrap_async(r["hir"]), env)
         except _Return as e:
@@ -269,6 +272,7 @@ class Mini:
         finally:
             self.crate = old
             self.depth -= 1
+            self.gstack.pop()
 
     def canon(self, p):
         """crate-qualified spelling of a def path (facts of crate X spell their own items `crate::...`)"""
@@ -305,6 +309,19 @@ class Mini:
             return True
         if t in ("pref", "pderef"):
             return self.bind(pat[1], v, env)
+        if t == "pslice":
+            before, mid, after = pat[1], pat[2], pat[3]
+            if not isinstance(v, list):
+                raise Unsupported("slice pattern on a value that is not an array")
+            if mid is None and len(v) != len(before) + len(after):
+                return False
+            if len(v) < len(before) + len(after):
+                return False
+            ok = all(self.bind(q, x, env) for q, x in zip(before, v[:len(before)]))
+            ok = ok and all(self.bind(q, x, env) for q, x in zip(after, v[len(v) - len(after):] if after else []))
+            if ok and mid is not None:
+                ok = self.bind(mid, v[len(before):len(v) - len(after)], env)
+            return ok
         if t == "ptup":
             if not isinstance(v, tuple) or len(v) != len(pat[1]):
                 raise Unsupported("tuple pattern")
@@ -323,6 +340,8 @@ class Mini:
                 return v == int(pat[2])
             if pat[1] == "bool":
                 return v == (pat[2] == "true")
+            if pat[1] == "str" and isinstance(v, str):
+                return v == pat[2]
             raise Unsupported("literal pattern")
         if t in ("ts", "ps"):
             name = pat[1].split("::")[-1]
@@ -357,6 +376,13 @@ class Mini:
                 return False
             if isinstance(v, tuple) and v and v[0] == "struct" and isinstance(v[1], str) and self.canon(v[1]).rsplit("::", 1)[0] == self.canon(pat[1]).rsplit("::", 1)[0]:
                 return self.canon(v[1]) == self.canon(pat[1])
+            if isinstance(v, (str, int)) and not isinstance(v, bool):
+                try:
+                    cv = self.const(pat[1])
+                except Unsupported:
+                    cv = None
+                if cv is not None and isinstance(cv, type(v)):
+                    return cv == v  # a constant used as a pattern
             raise Unsupported(f"path pattern {pat[1]}")
         if t == "por":
             return any(self.bind(p, v, env) for p in pat[1])
@@ -515,7 +541,7 @@ class Mini:
                 if to.startswith("i") and v >= (1 << (bits - 1)):
                     v -= 1 << bits
                 return v
-            if isinstance(v, Tok):
+            if isinstance(v, (Tok, MTok)):
                 return v if INT_BITS[to] == 8 else to_wide(v, INT_BITS[to] // 8)
             if isinstance(v, Wide):
                 return to_wide(v, INT_BITS[to] // 8) if INT_BITS[to] > 8 else v.slots[0]
@@ -584,6 +610,8 @@ class Mini:
             if op == "Or":
                 return self.truth(self.ev(n[4], env)) or self.truth(self.ev(n[5], env))
             return self.binop(op, self.ev(n[4], env), self.ev(n[5], env), n[3])
+        if t == "quote":
+            return n[1]
         if t == "path":
             p, kind = n[1], n[2]
             if "Ctor(Variant, Const)" in kind:
@@ -593,7 +621,7 @@ class Mini:
                 if r is not None:
                     return r
             if "Fn" in kind:
-                return ("fn", p)
+                return ("fn", p, kind, n[3] if len(n) > 3 else [])
             raise Unsupported(f"path {p}")
         if t == "tup":
             return tuple(self.ev(x, env) for x in n[1])
@@ -601,7 +629,15 @@ class Mini:
             return [self.ev(x, env) for x in n[1]]
         if t == "repeat":
             ty = n[1]
-            cnt = int(ty.rsplit(";", 1)[1].strip(" ]"))
+            ctok = ty.rsplit(";", 1)[1].strip(" ]")
+            if ctok.isdigit():
+                cnt = int(ctok)
+            else:
+                # a const generic parameter: the function was called with exactly one numeric generic argument
+                nums = self.gstack[-1] if getattr(self, "gstack", None) else []
+                if len(nums) != 1:
+                    raise Unsupported(f"array length {ctok}")
+                cnt = nums[0]
             v = self.ev(n[2], env)
             return [v] * cnt
         if t == "struct":
@@ -808,6 +844,8 @@ class Mini:
         raise Unsupported(f"iteration over {v!r}")
 
     def const(self, p):
+        if p in getattr(self, "consts", {}):
+            return self.consts[p]
         if p.startswith("std::num::<impl ") and p.split("::")[-1] in ("MAX", "MIN"):
             ty = p.split("<impl ")[1].split(">")[0]
             bits = INT_BITS[ty]
@@ -850,6 +888,8 @@ class Mini:
             if isinstance(a_, (list, tuple, dict)) and isinstance(b_, (list, tuple, dict)):
                 return a_ is b_
             raise Unsupported("ptr::eq on values without identity")
+        if p in ("std::slice::from_ref", "std::slice::raw::from_ref", "core::slice::raw::from_ref") and len(args) == 1:
+            return [args[0]]
         if p == "std::boxed::Box::<T>::new" and len(args) == 1:
             return args[0]
         if p in ("std::iter::sources::once::once", "std::iter::once") and len(args) == 1:
@@ -917,6 +957,16 @@ class Mini:
                 tgt.extend(args[1])
                 return ("Ok", ())
             raise Unsupported("write_all operands")
+        if p in ("std::mem::size_of_val", "core::mem::size_of_val") and len(args) == 1:
+            ga = H.call_gargs(n)
+            t0 = ga[0] if ga else ""
+            a0 = args[0].get() if isinstance(args[0], Ref) else args[0]
+            if t0.startswith("[") and t0.endswith("]") and ";" not in t0 and t0[1:-1] in INT_BITS and isinstance(a0, list):
+                return len(a0) * (INT_BITS[t0[1:-1]] // 8)
+            if t0.startswith("std::vec::Vec<") and t0[len("std::vec::Vec<"):].rstrip(">") in INT_BITS:
+                raise Unsupported("size_of_val of a Vec (the handle, not its contents)")
+            if t0 in INT_BITS:
+                return INT_BITS[t0] // 8
         if p == "std::mem::size_of":
             ga = H.call_gargs(n)
             if ga and ga[0] in INT_BITS:
@@ -925,7 +975,16 @@ class Mini:
                 return 4
         r, _ = self.find_fn(p, self.crate)
         if r is not None:
-            return self.call_fn(p, args)
+            return self.call_fn(p, args, gargs=H.call_gargs(n))
+        if args and p.startswith(("std::", "core::", "alloc::")) and not getattr(self, "_in_ufcs", False):
+            # a method named by its path (`u32::count_ones(x)`, `.map(u32::count_ones)`): the same models as the method-call form
+            self._in_ufcs = True
+            try:
+                return self.mcall(["mcall", "0:0", last, p, H.call_gargs(n), None, ["quote", args[0]], [["quote", a] for a in args[1:]], None, None], env)
+            except Unsupported:
+                pass
+            finally:
+                self._in_ufcs = False
         raise Unsupported(f"call {p}")
 
     def try_from(self, gargs, v, swap):
@@ -948,7 +1007,8 @@ class Mini:
 
     def apply(self, f, args):
         if isinstance(f, tuple) and f and f[0] == "fn":
-            return self.call_fn(f[1], args)
+            # a function item used as a value (`.map(u32::from_le_bytes)`): the same resolution as a direct call, std models included
+            return self.call(["call", "0:0", ["path", f[1], f[2] if len(f) > 2 else "Fn", f[3] if len(f) > 3 else []], [["quote", a] for a in args], None], [{}])
         if isinstance(f, tuple) and f and f[0] == "closure":
             env = f[3] + [{}]
             for p, a in zip(f[1], args):
@@ -980,6 +1040,19 @@ class Mini:
         for suffix, f in getattr(self, "overrides", {}).items():
             if p.endswith(suffix) and p.startswith(("std::", "core::", "alloc::")):
                 return f([recv] + args)
+        if isinstance(recv, str) and nm in ("to_string", "to_owned", "as_str", "into", "as_ref") and not args and p.startswith(("std::", "core::", "alloc::")) and recv != "None":
+            return recv  # strings are values here: owned / borrowed forms coincide
+        if isinstance(recv, str) and p.startswith("std::str::<impl str>::") and nm in ("contains", "starts_with", "ends_with") and len(args) == 1:
+            a0 = args[0]
+            if isinstance(a0, tuple) and len(a0) == 2 and a0[0] == "lit" and isinstance(a0[1], str) and len(a0[1]) == 1:
+                a0 = a0[1]  # a char literal
+            if isinstance(a0, str):
+                return (a0 in recv) if nm == "contains" else recv.startswith(a0) if nm == "starts_with" else recv.endswith(a0)
+        if nm == "contains" and isinstance(recv, tuple) and recv and recv[0] in ("range", "rangeincl") and len(args) == 1 and all(isinstance(x, int) and not isinstance(x, bool) for x in (recv[1], recv[2], args[0])):
+            return recv[1] <= args[0] <= recv[2] if recv[0] == "rangeincl" else recv[1] <= args[0] < recv[2]
+        if p.startswith("std::slice::<impl [T]>::") and nm == "fill" and isinstance(recv, list) and len(args) == 1:
+            recv[:] = [args[0]] * len(recv)
+            return ()
         if p in ("std::cmp::Ord::min", "std::cmp::Ord::max") and isinstance(recv, int) and len(args) == 1 and isinstance(args[0], int) and not isinstance(recv, bool):
             return min(recv, args[0]) if nm == "min" else max(recv, args[0])
         if p == "std::cmp::Ord::clamp" and all(isinstance(x, int) and not isinstance(x, bool) for x in [recv] + args) and len(args) == 2:
@@ -1123,6 +1196,26 @@ class Mini:
                 return recv[1]
             if nm == "is_none":
                 return recv == "None"
+            if nm == "and_then":
+                return self.apply(args[0], [recv[1]]) if recv != "None" else "None"
+            if nm == "map_or":
+                return self.apply(args[1], [recv[1]]) if recv != "None" else args[0]
+            if nm == "map_or_else":
+                return self.apply(args[1], [recv[1]]) if recv != "None" else self.apply(args[0], [])
+            if nm == "unwrap_or_else":
+                return recv[1] if recv != "None" else self.apply(args[0], [])
+            if nm in ("is_some_and", "is_none_or"):
+                if recv == "None":
+                    return nm == "is_none_or"
+                return self.truth(self.apply(args[0], [recv[1]]))
+            if nm == "filter":
+                return recv if recv != "None" and self.truth(self.apply(args[0], [recv[1]])) else "None"
+            if nm in ("copied", "cloned"):
+                return recv
+            if nm == "or":
+                return recv if recv != "None" else args[0]
+            if nm == "or_else":
+                return recv if recv != "None" else self.apply(args[0], [])
             if nm == "unwrap":
                 if recv == "None":
                     raise Panic("unwrap on None")
@@ -1137,6 +1230,14 @@ class Mini:
             if nm == "unwrap_or":
                 return recv[1] if recv[0] == "Ok" else args[0]
             if nm == "map_err":
+                return recv
+            if nm == "map":
+                return ("Ok", self.apply(args[0], [recv[1]])) if recv[0] == "Ok" else recv
+            if nm == "and_then":
+                return self.apply(args[0], [recv[1]]) if recv[0] == "Ok" else recv
+            if nm == "map_or":
+                return self.apply(args[1], [recv[1]]) if recv[0] == "Ok" else args[0]
+            if nm in ("copied", "cloned"):
                 return recv
             if nm == "ok":
                 return ("Some", recv[1]) if recv[0] == "Ok" else "None"
@@ -1189,6 +1290,17 @@ class Mini:
                 return args[0] in recv
             if nm == "iter":
                 return Iter(list(recv))
+            if nm == "get":
+                return ("Some", args[0]) if args[0] in recv else "None"
+            if nm == "clear":
+                del recv[:]
+                return ()
+            if nm == "insert":
+                # insertion position is irrelevant for the uses modelled (membership, any / all, iteration over an unordered condition)
+                if args[0] in recv:
+                    return False
+                recv.append(args[0])
+                return True
         if p.startswith("std::collections::btree::map::BTreeMap"):
             if not isinstance(recv, BTree):
                 raise Unsupported("BTreeMap receiver")
@@ -1353,7 +1465,90 @@ class Mini:
                 i += 1
             return ("iter", xs[i:])
         if p == "std::iter::traits::iterator::Iterator::collect":
-            return list(self.iterate(recv))
+            items = list(self.iterate(recv))
+            rty = m.get("ty") or ""
+            if rty.startswith("std::result::Result<"):
+                # collecting Results stops at the first error
+                for x in items:
+                    if isinstance(x, tuple) and x and x[0] == "Err":
+                        return x
+                if all(isinstance(x, tuple) and x and x[0] == "Ok" for x in items):
+                    return ("Ok", [x[1] for x in items])
+                raise Unsupported("collect into Result of non-Result items")
+            if rty.startswith("std::option::Option<"):
+                if any(x == "None" for x in items):
+                    return "None"
+                return ("Some", [x[1] for x in items])
+            if rty.startswith("std::collections::BTreeMap") or rty.startswith("std::collections::btree::map::BTreeMap"):
+                bt = BTree()
+                for k, v in items:
+                    if not isinstance(k, int):
+                        raise Unsupported("abstract map key")
+                    bt.d[k] = v
+                return bt
+            return items
+        if p == "std::iter::traits::iterator::Iterator::try_for_each":
+            for x in self.iterate(recv):
+                r = self.apply(args[0], [x])
+                if isinstance(r, tuple) and r and r[0] == "Err":
+                    return r
+                if r == "None":
+                    return "None"
+            return ("Ok", ()) if not (m.get("ty") or "").startswith("std::option::Option") else ("Some", ())
+        if p == "std::iter::traits::iterator::Iterator::try_fold":
+            acc = args[0]
+            for x in self.iterate(recv):
+                r = self.apply(args[1], [acc, x])
+                if isinstance(r, tuple) and r and r[0] == "Err" or r == "None":
+                    return r
+                acc = r[1]
+            return ("Ok", acc) if not (m.get("ty") or "").startswith("std::option::Option") else ("Some", acc)
+        if p == "std::iter::traits::iterator::Iterator::find_map":
+            for x in self.iterate(recv):
+                r = self.apply(args[0], [x])
+                if r != "None":
+                    return r
+            return "None"
+        if p == "std::iter::traits::iterator::Iterator::map_while":
+            out = []
+            for x in self.iterate(recv):
+                r = self.apply(args[0], [x])
+                if r == "None":
+                    break
+                out.append(r[1])
+            return ("iter", out)
+        if p == "std::iter::traits::iterator::Iterator::inspect":
+            items = list(self.iterate(recv))
+            for x in items:
+                self.apply(args[0], [x])
+            return ("iter", items)
+        if p == "std::iter::traits::iterator::Iterator::nth" and isinstance(args[0], int):
+            items = list(self.iterate(recv))
+            return ("Some", items[args[0]]) if args[0] < len(items) else "None"
+        if p == "std::iter::traits::iterator::Iterator::step_by" and isinstance(args[0], int) and args[0] > 0:
+            return ("iter", list(self.iterate(recv))[::args[0]])
+        if p == "std::iter::traits::iterator::Iterator::product":
+            acc = 1
+            for x in self.iterate(recv):
+                if not isinstance(x, int):
+                    raise Unsupported("product of abstract values")
+                acc *= x
+            return acc
+        if p == "std::iter::traits::iterator::Iterator::unzip":
+            items = list(self.iterate(recv))
+            return ([a for a, _b in items], [b for _a, b in items])
+        if p in ("std::iter::traits::iterator::Iterator::max_by_key", "std::iter::traits::iterator::Iterator::min_by_key"):
+            items = list(self.iterate(recv))
+            if not items:
+                return "None"
+            keys = [self.apply(args[0], [x]) for x in items]
+            if not all(isinstance(k, int) for k in keys):
+                raise Unsupported("ordering of abstract keys")
+            best = 0
+            for i, k in enumerate(keys):
+                if (nm == "max_by_key" and k >= keys[best]) or (nm == "min_by_key" and k < keys[best]):
+                    best = i
+            return ("Some", items[best])
         if p == "std::iter::traits::iterator::Iterator::position":
             for i, x in enumerate(self.iterate(recv)):
                 if self.truth(self.apply(args[0], [x])):
